@@ -196,10 +196,10 @@ func emissionOf(in ssa.Instruction) *emission {
 
 type optRow struct {
 	Name   string
-	Code   string                       // option code (by value)
-	Gate   func(st *State) int          // three-valued gate over the decided atoms
-	Global []string                     // each must occur in the canonical rendering of the emitted value
-	Stop   *bool                        // required stop result on the emitting path (nil = not constrained)
+	Code   string              // option code (by value)
+	Gate   func(st *State) int // three-valued gate over the decided atoms
+	Global []string            // each must occur in the canonical rendering of the emitted value
+	Stop   *bool               // required stop result on the emitting path (nil = not constrained)
 }
 
 type optSpec struct {
@@ -244,7 +244,9 @@ func ruleOptions(c *Ctx, prefix string) {
 		{Pkg: "searchdomains", Fn: "domainSearchListHandler4", RespIdx: 1, Rows: []optRow{{Name: "searchdomains v4", Code: k4("OptionDNSDomainSearchList"), Gate: always, Global: []string{pp + "searchdomains.v4SearchList"}, Stop: &fa}}},
 		{Pkg: "searchdomains", Fn: "domainSearchListHandler6", RespIdx: 1, Rows: []optRow{{Name: "searchdomains v6", Code: k6("OptionDomainSearchList"), Gate: always, Global: []string{pp + "searchdomains.v6SearchList"}, Stop: &fa}}},
 		{Pkg: "staticroute", Fn: "Handler4", RespIdx: 1, Rows: []optRow{{Name: "staticroute", Code: k4("OptionClasslessStaticRoute"),
-			Gate:   func(st *State) int { return histLenPos(st, regexp.MustCompile(`^len\(`+reQ(pp)+`staticroute\.routes\)$`)) },
+			Gate: func(st *State) int {
+				return histLenPos(st, regexp.MustCompile(`^len\(`+reQ(pp)+`staticroute\.routes\)$`))
+			},
 			Global: []string{pp + "staticroute.routes"}, Stop: &fa}}},
 		{Pkg: "leasetime", Fn: "Handler4", RespIdx: 1, Rows: []optRow{{Name: "lease_time", Code: k4("OptionIPAddressLeaseTime"),
 			Gate: func(st *State) int {
@@ -326,6 +328,23 @@ func ruleOptions(c *Ctx, prefix string) {
 	covered := map[*ssa.Function]bool{}
 	for _, sp := range specs {
 		fn := c.P.Func("plugins/"+sp.Pkg, "", sp.Fn)
+		if fn == nil {
+			// renamed: the only handler of that protocol in the plugin's package
+			ro := FindRoots(c.P, c.R)
+			cands := ro.Handlers4
+			if strings.HasSuffix(sp.Fn, "6") {
+				cands = ro.Handlers6
+			}
+			var found []*ssa.Function
+			for _, h := range cands {
+				if strings.HasSuffix(fnPkgPath(h), "/plugins/"+sp.Pkg) && h.Parent() == nil {
+					found = append(found, h)
+				}
+			}
+			if len(found) == 1 {
+				fn = found[0]
+			}
+		}
 		if fn == nil {
 			c.R.Fatalf("ANCHOR-UNRESOLVED: plugins/%s.%s", sp.Pkg, sp.Fn)
 			continue
